@@ -31,6 +31,13 @@ func runTrunc(t *simrt.Tape, keep bool) simrt.Outcome {
 		o.MaxBody = 100 << 10
 	}
 	rs := genResults(r, n, o)
+	if f == "csv" && n > 1 && t.Prob(1, 15) {
+		// one record beyond a megabyte, not the last (CSV streams are cut at record ends only, so the cost stays
+		// small): an encoder that sets its buffer up again behind a large record still emits every later record
+		k := t.Choose(n - 1)
+		rs[k].Body = bytes.Repeat([]byte{byte('a' + t.Choose(26))}, 1<<20+t.Choose(1<<19))
+		r.stats["probe.record-beyond-a-megabyte"]++
+	}
 	if f == "json" && n > 1 && t.Prob(1, 8) {
 		// an Encode call that fails (a timestamp the JSON layout cannot represent) emits nothing, and the
 		// encoder, if it still accepts results afterwards, keeps emitting one whole record per call
